@@ -252,3 +252,173 @@ Section Generic.
     - subst xr. pose proof (cfg_indep st (ms_bfd st) e Hr). match type of H with context [match ?X with _ => _ end] => destruct X end; [discriminate|congruence].
   Qed.
 End Generic.
+
+(* ---------- all_some ---------- *)
+Lemma all_some_some {A B} (f : A -> option B) l : (forall x, In x l -> f x <> None) -> all_some (map f l) <> None.
+Proof.
+  induction l as [|x l IH]; simpl; intros H; [discriminate|].
+  destruct (f x) eqn:E; [|exfalso; exact (H x (or_introl eq_refl) E)].
+  destruct (all_some (map f l)) eqn:E2; [discriminate|]. exfalso. apply IH; [|reflexivity]. intros y Hy; apply H; right; assumption.
+Qed.
+
+Lemma map_snd_adel_in k l s : In s (map snd (adel k l)) -> In s (map snd l).
+Proof. intros H. apply in_map_iff in H as (x & <- & Hx). apply adel_in in Hx as [Hx _]. apply in_map; assumption. Qed.
+
+(* ---------- frr-k8s back end ---------- *)
+Lemma k8s_render_some node S : (forall s, In s S -> k_neighbor s <> None) -> k8s_render node S <> None.
+Proof.
+  intros H. unfold k8s_render.
+  assert (A: all_some (map (k_router S) (sort_s (map rkey S))) <> None).
+  { apply all_some_some. intros k Hk. apply sort_s_in, in_map_iff in Hk as (s0 & <- & Hs0).
+    unfold k_router. destruct (sessions_with rkey (rkey s0) S) as [|f rest] eqn:E.
+    - assert (In s0 (sessions_with rkey (rkey s0) S)) by (apply sessions_with_in; auto). rewrite E in H0. contradiction.
+    - assert (B: all_some (map k_neighbor (sort_k sname (f :: rest))) <> None).
+      { apply all_some_some. intros t Ht. apply sort_k_in in Ht. rewrite <- E in Ht. apply sessions_with_in in Ht as [Ht _]. apply H; assumption. }
+      destruct (all_some (map k_neighbor (sort_k sname (f :: rest)))); [discriminate|congruence]. }
+  destruct (all_some _); [discriminate|congruence].
+Qed.
+
+Lemma k8s_render_all node S : key_inj sname S -> k8s_render node S <> None -> forall s, In s S -> k_neighbor s <> None.
+Proof.
+  intros Hi H s Hs. destruct (k8s_render node S) as [c|] eqn:E; [|congruence].
+  destruct (k8s_session_has_neighbor _ _ _ _ Hi E Hs) as (r & n & _ & _ & Hn & _). congruence.
+Qed.
+
+Lemma gen_k8s_indep node S b e b' e' : gen_k8s node S b e = None -> gen_k8s node S b' e' = None.
+Proof. unfold gen_k8s. destruct (k8s_render node S); [discriminate|reflexivity]. Qed.
+
+Lemma gen_k8s_del node l b e k : kinv l -> True -> gen_k8s node (map snd l) b e <> None -> gen_k8s node (map snd (adel k l)) b e <> None.
+Proof.
+  intros Hk _ H. unfold gen_k8s in *.
+  assert (R: k8s_render node (map snd l) <> None) by (destruct (k8s_render node (map snd l)); [discriminate|congruence]).
+  pose proof (k8s_render_all node _ (kinv_sname_inj l Hk) R) as A.
+  assert (R': k8s_render node (map snd (adel k l)) <> None).
+  { apply k8s_render_some. intros s Hs. apply A. eapply map_snd_adel_in; eassumption. }
+  destruct (k8s_render node (map snd (adel k l))); [discriminate|congruence].
+Qed.
+
+Theorem k8s_history_in_sync node ops st oks last :
+  hist_ok (gen_k8s node) false (fun _ => True) minit ops -> mrun (gen_k8s node) false minit None ops = (st, oks, last) ->
+  cfg_of (gen_k8s node) st <> None /\ ((last = None /\ st = minit) \/ last = cfg_of (gen_k8s node) st).
+Proof.
+  apply (history_in_sync (gen_k8s node) false (fun _ => True) (gen_k8s_indep node) (gen_k8s_del node)).
+  vm_compute. discriminate.
+Qed.
+
+Theorem k8s_order_independent node l l' b e :
+  Permutation l l' -> rkey_fields (map snd l) -> pfx_texts_inj (map snd l) -> kinv l ->
+  gen_k8s node (map snd l) b e = gen_k8s node (map snd l') b e.
+Proof.
+  intros P Hf Hp Hk. unfold gen_k8s.
+  rewrite (k8s_render_perm node (map snd l) (map snd l') (kinv_sname_inj l Hk) Hf Hp (Permutation_map (@snd string session) P)). reflexivity.
+Qed.
+
+(* ---------- FRR back end ---------- *)
+Definition good_frr (l : list (string * session)) : Prop :=
+  forall s t, In s (map snd l) -> In t (map snd l) -> rkey s = rkey t -> nname s = nname t -> s = t.
+
+Lemma render_all S : wf_lite S -> render S <> None -> forall s, In s S -> mk_neighbor s (s_advs s) <> None.
+Proof.
+  intros W H s Hs. destruct (render S) as [c|] eqn:E; [|congruence]. destruct (render_routers _ _ E) as (rs & Hc & _).
+  destruct (session_nbr_lite _ _ _ W Hc Hs) as (r & n & _ & _ & _ & _ & Hmk). congruence.
+Qed.
+
+Lemma render_some S : wf_lite S -> (forall s, In s S -> mk_neighbor s (s_advs s) <> None) -> render S <> None.
+Proof.
+  intros W H. unfold render.
+  assert (A: create_config S <> None).
+  { unfold create_config. apply all_some_some. intros k Hk. apply sort_s_in, in_map_iff in Hk as (s0 & <- & Hs0).
+    unfold mk_router. destruct (sessions_with rkey (rkey s0) S) as [|f rest] eqn:E.
+    - assert (In s0 (sessions_with rkey (rkey s0) S)) by (apply sessions_with_in; auto). rewrite E in H0. contradiction.
+    - assert (B: all_some (map (fun nn => match sessions_with nname nn (f :: rest) with
+                                            | [] => None
+                                            | f0 :: _ => mk_neighbor f0 (flat_map s_advs (sessions_with nname nn (f :: rest)))
+                                            end) (sort_s (map nname (f :: rest)))) <> None).
+      { apply all_some_some. intros nn Hnn. apply sort_s_in, in_map_iff in Hnn as (t & <- & Ht).
+        rewrite <- E in Ht. apply sessions_with_in in Ht as [HtS Kt].
+        rewrite <- E, <- Kt, (singleton_group_lite S t W HtS). simpl. rewrite app_nil_r. apply H; assumption. }
+      destruct (all_some _); [discriminate|congruence]. }
+  destruct (create_config S); [discriminate|congruence].
+Qed.
+
+Lemma kinv_good_lite l : kinv l -> good_frr l -> wf_lite (map snd l).
+Proof. intros Hk Hg. split; [apply kinv_values_nodup; assumption|exact Hg]. Qed.
+
+Lemma gen_frr_indep S b e b' e' : gen_frr S b e = None -> gen_frr S b' e' = None.
+Proof. unfold gen_frr. destruct (render S); [discriminate|reflexivity]. Qed.
+
+Lemma gen_frr_del l b e k : kinv l -> good_frr l -> gen_frr (map snd l) b e <> None -> gen_frr (map snd (adel k l)) b e <> None.
+Proof.
+  intros Hk Hg H. unfold gen_frr in *.
+  assert (R: render (map snd l) <> None) by (destruct (render (map snd l)); [discriminate|congruence]).
+  pose proof (render_all _ (kinv_good_lite l Hk Hg) R) as A.
+  assert (W': wf_lite (map snd (adel k l))).
+  { apply kinv_good_lite; [apply kinv_adel; assumption|]. intros s t Hs Ht. apply Hg; eapply map_snd_adel_in; eassumption. }
+  assert (R': render (map snd (adel k l)) <> None).
+  { apply render_some; [exact W'|]. intros s Hs. apply A. eapply map_snd_adel_in; eassumption. }
+  destruct (render (map snd (adel k l))); [discriminate|congruence].
+Qed.
+
+Theorem frr_history_in_sync ops st oks last :
+  hist_ok gen_frr true good_frr minit ops -> mrun gen_frr true minit None ops = (st, oks, last) ->
+  cfg_of gen_frr st <> None /\ ((last = None /\ st = minit) \/ last = cfg_of gen_frr st).
+Proof.
+  apply (history_in_sync gen_frr true good_frr gen_frr_indep gen_frr_del). vm_compute. discriminate.
+Qed.
+
+Theorem frr_order_independent (l l' : list (string * session)) b e :
+  Permutation l l' -> wf_perm (map snd l) -> gen_frr (map snd l) b e = gen_frr (map snd l') b e.
+Proof.
+  intros P W. unfold gen_frr. rewrite (render_perm (map snd l) (map snd l') W (Permutation_map (@snd string session) P)). reflexivity.
+Qed.
+
+(* two histories that end with the same session table (in any order), BFD profiles
+   and extra configuration hand on the same configuration: the configuration is a
+   function of the final requested state, e.g. that of a fresh manager given only it *)
+Theorem frr_history_independent ops1 ops2 st1 st2 oks1 oks2 last1 last2 :
+  hist_ok gen_frr true good_frr minit ops1 -> hist_ok gen_frr true good_frr minit ops2 ->
+  mrun gen_frr true minit None ops1 = (st1, oks1, last1) -> mrun gen_frr true minit None ops2 = (st2, oks2, last2) ->
+  Permutation (ms_sessions st1) (ms_sessions st2) -> ms_bfd st1 = ms_bfd st2 -> ms_extra st1 = ms_extra st2 ->
+  wf_perm (sessions_of st1) -> last1 <> None -> last2 <> None -> last1 = last2.
+Proof.
+  intros H1 H2 R1 R2 P Eb Ee W N1 N2.
+  destruct (frr_history_in_sync _ _ _ _ H1 R1) as [_ [[X _]|A]]; [congruence|].
+  destruct (frr_history_in_sync _ _ _ _ H2 R2) as [_ [[X _]|B]]; [congruence|].
+  rewrite A, B. unfold cfg_of, sessions_of. rewrite <- Eb, <- Ee. apply frr_order_independent; assumption.
+Qed.
+
+Theorem k8s_history_independent node ops1 ops2 st1 st2 oks1 oks2 last1 last2 :
+  hist_ok (gen_k8s node) false (fun _ => True) minit ops1 -> hist_ok (gen_k8s node) false (fun _ => True) minit ops2 ->
+  mrun (gen_k8s node) false minit None ops1 = (st1, oks1, last1) -> mrun (gen_k8s node) false minit None ops2 = (st2, oks2, last2) ->
+  Permutation (ms_sessions st1) (ms_sessions st2) -> ms_bfd st1 = ms_bfd st2 -> ms_extra st1 = ms_extra st2 ->
+  rkey_fields (sessions_of st1) -> pfx_texts_inj (sessions_of st1) -> kinv (ms_sessions st1) ->
+  last1 <> None -> last2 <> None -> last1 = last2.
+Proof.
+  intros H1 H2 R1 R2 P Eb Ee Wf Wp Wk N1 N2.
+  destruct (k8s_history_in_sync _ _ _ _ _ H1 R1) as [_ [[X _]|A]]; [congruence|].
+  destruct (k8s_history_in_sync _ _ _ _ _ H2 R2) as [_ [[X _]|B]]; [congruence|].
+  rewrite A, B. unfold cfg_of, sessions_of. rewrite <- Eb, <- Ee. apply k8s_order_independent; assumption.
+Qed.
+
+(* the session table always has distinct names and every entry sits under its own name *)
+Theorem table_invariant {C} (gen : list session -> list bfdprof -> string -> option C) xr ops : forall st last st' oks last',
+  kinv (ms_sessions st) -> mrun gen xr st last ops = (st', oks, last') -> kinv (ms_sessions st').
+Proof.
+  induction ops as [|o r IH]; intros st last st' oks last' Hk H; simpl in H.
+  - inversion H; subst; assumption.
+  - destruct (mstep gen xr st o) as [[st1 ok] c] eqn:E.
+    destruct (mrun gen xr st1 _ r) as [[st2 oks2] last2] eqn:E2. inversion H; subst.
+    eapply IH; [|exact E2]. clear IH E2 H.
+    destruct o as [p|p advs|p|l|e]; simpl in E.
+    + match type of E with context [match ?X with _ => _ end] => destruct X end; inversion E; subst; simpl.
+      * apply kinv_aput; [assumption|reflexivity].
+      * apply kinv_adel, kinv_aput; [assumption|reflexivity].
+    + destruct (aget (sname p) (ms_sessions st)) as [s0|] eqn:G; [|inversion E; subst; assumption].
+      destruct (forallb valid_adv advs); [|inversion E; subst; assumption].
+      match type of E with context [match ?X with _ => _ end] => destruct X end; inversion E; subst; simpl; [|assumption].
+      apply kinv_aput; [assumption|]. rewrite sname_set_advs. destruct Hk as [_ Hk]. apply Hk, aget_in, G.
+    + match type of E with context [match ?X with _ => _ end] => destruct X end; inversion E; subst; simpl; apply kinv_adel; assumption.
+    + match type of E with context [match ?X with _ => _ end] => destruct X end; inversion E; subst; simpl; assumption.
+    + destruct xr; [|inversion E; subst; assumption].
+      match type of E with context [match ?X with _ => _ end] => destruct X end; inversion E; subst; simpl; assumption.
+Qed.
